@@ -22,7 +22,9 @@ static uint64_t fnv(uint64_t h, const void *p, size_t n) {          /* word-wise
 #define H0 1469598103934665603ULL
 #define HV(h, x) h = fnv(h, &(x), sizeof(x))
 #define HA(h, p, n) do { if ((p) && (n) > 0) h = fnv(h, (p), (size_t)(n) * sizeof(*(p))); } while (0)
-static uint64_t tables_digest(void) {
+uint64_t xrl_tables_digest(void);
+static uint64_t tables_digest(void) { return xrl_tables_digest(); }
+uint64_t xrl_tables_digest(void) {
   uint64_t h = H0;
   HV(h, AtomicWeight_arr); HV(h, ElementDensity_arr); HV(h, EdgeEnergy_arr); HV(h, LineEnergy_arr); HV(h, FluorYield_arr); HV(h, JumpFactor_arr); HV(h, CosKron_arr);
   HV(h, RadRate_arr); HV(h, AtomicLevelWidth_arr); HV(h, Auger_Rates); HV(h, Auger_Yields); HV(h, Electron_Config_Kissel); HV(h, EdgeEnergy_Kissel);
